@@ -20,7 +20,7 @@ from mc.systems._rxn_common import IDS, N, POS, MENU, MENU_INDEX
 PROPERTY = 'C17'
 RULE = ('BFS over operator applications on a heap {a,b,c,r,p} of real Reaction objects sharing a reactant; depth 2 enumerates all '
         'expression trees of depth <= 2 over {a+b, a-b, sum, k*a, a*k, a/k, -a, copy, copy(basis), backwards, +=, -=, *=, /=, '
-        'ParallelReaction([x,y]), item.X=, set.X[i]=, set.X=, reduce}.  Two histories are merged iff the complete field digests '
+        'ParallelReaction([x,y]), item.X=, set.X[i]=, set.X=, item*=k, item/=k, item*k, reduce, set.copy}.  Two histories are merged iff the complete field digests '
         '(stoichiometry incl. stored zeros, reactant index, X, basis, phases, object identity/aliasing classes) of all heap members '
         'agree.  A transition is non-trivial when it built or changed a reaction whose extent vector differs from every operand\'s, '
         'or when it changed a conversion through an item/set.')
@@ -168,6 +168,10 @@ class Arith(System):
                 for v in (0.25, 0.0):
                     acts += [('itemX', i, v), ('heldX', i, v), ('setXi', i, v)]
             acts += [('setX', 0.125, 0.375), ('reduce',), ('pcopy', None), ('pcopy', 'other')]
+            for i in (0, 1):
+                for k in KS:
+                    # arithmetic on an ITEM of the set: in-place forms act on that member only, binary forms spare the set
+                    acts += [('itemimul', i, k), ('itemidiv', i, k), ('helditemimul', i, k), ('itemmul', i, k)]
         return acts
 
     def _products(self, st, x):
@@ -416,6 +420,43 @@ class Arith(System):
             self._check_p_acts(st, match)
             st.last_nontrivial = True
             return ('pset',)
+        elif op == 'itemmul':
+            p = st.p
+            _, i, k = a
+            match['k'] = k
+            new = run(lambda: p[i] * k)
+            self._check_untouched(st, before, set(), match, f'set[{i}] * {k}')
+            if new is None or isinstance(new, type(p[i])) and getattr(new, '_parent', None) is p:
+                raise Violation('returns-new-object', f'set[{i}] * {k} returned an item of the set', match=match)
+            if any(new._stoichiometry is s_ for s_ in p._stoichiometry):
+                raise Violation('returns-new-object', f'set[{i}] * {k}: result shares its stoichiometry with the set', match=dict(match, shared='stoichiometry'))
+            pv = st.pval[i]
+            obj['r'] = new; val['r'] = Val(pv.nu * st.pX[i] * k, pv.ridx, p._basis, pv.phases, pv.nu)
+            self._check_value(st, 'r', match, f'set[{i}] * {k}')
+            self._check_p_acts(st, match)
+            st.last_nontrivial = True
+            return ('itemmul', round(val['r'].X(), 12))
+        elif op in ('itemimul', 'itemidiv', 'helditemimul'):
+            p = st.p
+            _, i, k = a
+            match['k'] = k
+            def f():
+                it = st.pitems[i] if op == 'helditemimul' else p[i]
+                if op == 'itemidiv': it /= k
+                else: it *= k
+                return it
+            it = run(f)
+            st.pX[i] = st.pX[i] / k if op == 'itemidiv' else st.pX[i] * k
+            for j in (0, 1):
+                seen = dict(set=float(p.X[j]), fresh_item=float(p[j].X), held_item=float(st.pitems[j].X), iterated=float(list(p)[j].X))
+                for k_, x_ in seen.items():
+                    if abs(x_ - st.pX[j]) > 1e-12 * max(1.0, abs(st.pX[j])):
+                        raise Violation('item-set', f'after {op} on item [{i}] with k={k}: conversion [{j}] seen through {k_} is {x_}, '
+                                        f'expected {st.pX[j]}', match=dict(match, seen=k_, member='self' if j == i else 'sibling'))
+            self._check_untouched(st, before, set(), match, op, skip_p=True)
+            self._check_p_acts(st, match)
+            st.last_nontrivial = True
+            return (op,)
         elif op in ('itemX', 'heldX', 'setXi', 'setX'):
             p = st.p
             if op == 'setX':
